@@ -18,7 +18,8 @@ use std::sync::OnceLock;
 struct Pos {
     name: &'static str,
     /// the abstract item holding integer item `n`
-    build: fn(Item) -> Item,
+    /// (n, the adjacent integer) -> abstract item
+    build: fn(Item, Item) -> Item,
     /// decode, then re-encode
     recode: fn(&[u8]) -> Result<Result<Vec<u8>, CoseError>, CoseError>,
     /// model: does the statement accept this item? (only consulted when n is in the supported range)
@@ -39,6 +40,15 @@ macro_rules! recode {
     };
 }
 
+/// The adjacent integer (n + 1, or n - 1 at the top of the 64-bit / CBOR range).
+fn neighbour(n: &Item) -> Item {
+    match n {
+        Item::Int(v) if *v == i64::MAX as i128 || *v == INT_MAX => Item::Int(*v - 1),
+        Item::Int(v) => Item::Int(*v + 1),
+        o => o.clone(),
+    }
+}
+
 fn party(n: Item) -> Item {
     Item::Array(vec![Item::Null, n, Item::Null])
 }
@@ -55,33 +65,38 @@ fn positions() -> &'static Vec<Pos> {
         let mut mc = || MCtx::default();
         let _ = &mut mc;
         vec![
-            Pos { name: "Label", build: |n| n, recode: recode!(Label), accepts: |i| m_label(i).is_ok(), unsigned: false, uninterpreted: false },
-            Pos { name: "header-label", build: |n| map1(n, Item::Null), recode: recode!(Header), accepts: |i| m_header(i, &mut MCtx::default()).is_ok(), unsigned: false, uninterpreted: false },
-            Pos { name: "key-label", build: |n| Item::Map(vec![(Item::Int(1), Item::Int(1)), (n, Item::Null)]), recode: recode!(CoseKey), accepts: |i| m_key(i).is_ok(), unsigned: false, uninterpreted: false },
-            Pos { name: "claim-key", build: |n| map1(n, Item::Int(0)), recode: recode!(ClaimsSet), accepts: |i| m_claims(i).is_ok(), unsigned: false, uninterpreted: false },
-            Pos { name: "header-alg", build: |n| map1(Item::Int(1), n), recode: recode!(Header), accepts: |i| m_header(i, &mut MCtx::default()).is_ok(), unsigned: false, uninterpreted: false },
-            Pos { name: "key-alg", build: |n| Item::Map(vec![(Item::Int(1), Item::Int(1)), (Item::Int(3), n)]), recode: recode!(CoseKey), accepts: |i| m_key(i).is_ok(), unsigned: false, uninterpreted: false },
-            Pos { name: "kdf-alg", build: |n| Item::Array(vec![n, nil_party(), nil_party(), supp(Item::Int(1))]), recode: recode!(CoseKdfContext), accepts: |i| m_kdf(i, &mut MCtx::default()).is_ok(), unsigned: false, uninterpreted: false },
-            Pos { name: "kty", build: |n| map1(Item::Int(1), n), recode: recode!(CoseKey), accepts: |i| m_key(i).is_ok(), unsigned: false, uninterpreted: false },
-            Pos { name: "content-type", build: |n| map1(Item::Int(3), n), recode: recode!(Header), accepts: |i| m_header(i, &mut MCtx::default()).is_ok(), unsigned: false, uninterpreted: false },
-            Pos { name: "crit-entry", build: |n| map1(Item::Int(2), Item::Array(vec![Item::Int(1), n])), recode: recode!(Header), accepts: |i| m_header(i, &mut MCtx::default()).is_ok(), unsigned: false, uninterpreted: false },
-            Pos { name: "key-ops-entry", build: |n| Item::Map(vec![(Item::Int(1), Item::Int(1)), (Item::Int(4), Item::Array(vec![n]))]), recode: recode!(CoseKey), accepts: |i| m_key(i).is_ok(), unsigned: false, uninterpreted: false },
-            Pos { name: "nonce", build: party, recode: recode!(PartyInfo), accepts: |i| m_party(i).is_ok(), unsigned: false, uninterpreted: false },
-            Pos { name: "kdf-party-v-nonce", build: |n| Item::Array(vec![Item::Int(1), nil_party(), party(n), supp(Item::Int(1))]), recode: recode!(CoseKdfContext), accepts: |i| m_kdf(i, &mut MCtx::default()).is_ok(), unsigned: false, uninterpreted: false },
-            Pos { name: "exp", build: |n| map1(Item::Int(4), n), recode: recode!(ClaimsSet), accepts: |i| m_claims(i).is_ok(), unsigned: false, uninterpreted: false },
-            Pos { name: "nbf", build: |n| map1(Item::Int(5), n), recode: recode!(ClaimsSet), accepts: |i| m_claims(i).is_ok(), unsigned: false, uninterpreted: false },
-            Pos { name: "iat", build: |n| map1(Item::Int(6), n), recode: recode!(ClaimsSet), accepts: |i| m_claims(i).is_ok(), unsigned: false, uninterpreted: false },
-            Pos { name: "key-data-length", build: supp, recode: recode!(SuppPubInfo), accepts: |i| m_supp(i, &mut MCtx::default()).is_ok(), unsigned: true, uninterpreted: false },
-            Pos { name: "kdf-key-data-length", build: |n| Item::Array(vec![Item::Int(1), nil_party(), nil_party(), supp(n)]), recode: recode!(CoseKdfContext), accepts: |i| m_kdf(i, &mut MCtx::default()).is_ok(), unsigned: true, uninterpreted: false },
-            Pos { name: "RegisteredLabel<Algorithm>", build: |n| n, recode: recode!(RegisteredLabel<iana::Algorithm>), accepts: |i| m_reg_label(crate::registry::ALGORITHM, i).is_ok(), unsigned: false, uninterpreted: false },
-            Pos { name: "RegisteredLabel<CoapContentFormat>", build: |n| n, recode: recode!(RegisteredLabel<iana::CoapContentFormat>), accepts: |i| m_reg_label(crate::registry::COAP_CONTENT_FORMAT, i).is_ok(), unsigned: false, uninterpreted: false },
-            Pos { name: "RegisteredLabelWithPrivate<Algorithm>", build: |n| n, recode: recode!(RegisteredLabelWithPrivate<iana::Algorithm>), accepts: |i| m_reg_label_private(crate::registry::ALGORITHM, i).is_ok(), unsigned: false, uninterpreted: false },
-            Pos { name: "RegisteredLabelWithPrivate<CwtClaimName>", build: |n| n, recode: recode!(RegisteredLabelWithPrivate<iana::CwtClaimName>), accepts: |i| m_reg_label_private(crate::registry::CWT_CLAIM_NAME, i).is_ok(), unsigned: false, uninterpreted: false },
-            Pos { name: "RegisteredLabelWithPrivate<HeaderParameter>", build: |n| n, recode: recode!(RegisteredLabelWithPrivate<iana::HeaderParameter>), accepts: |i| m_reg_label_private(crate::registry::HEADER_PARAMETER, i).is_ok(), unsigned: false, uninterpreted: false },
-            Pos { name: "RegisteredLabelWithPrivate<EllipticCurve>", build: |n| n, recode: recode!(RegisteredLabelWithPrivate<iana::EllipticCurve>), accepts: |i| m_reg_label_private(crate::registry::ELLIPTIC_CURVE, i).is_ok(), unsigned: false, uninterpreted: false },
-            Pos { name: "header-extra-value", build: |n| map1(Item::Int(100), n), recode: recode!(Header), accepts: |_| true, unsigned: false, uninterpreted: true },
-            Pos { name: "key-extra-value", build: |n| Item::Map(vec![(Item::Int(1), Item::Int(1)), (Item::Int(-1), n)]), recode: recode!(CoseKey), accepts: |_| true, unsigned: false, uninterpreted: true },
-            Pos { name: "claim-extra-value", build: |n| map1(Item::Int(8), Item::Array(vec![n])), recode: recode!(ClaimsSet), accepts: |_| true, unsigned: false, uninterpreted: true },
+            Pos { name: "Label", build: |n, _m| n, recode: recode!(Label), accepts: |i| m_label(i).is_ok(), unsigned: false, uninterpreted: false },
+            Pos { name: "header-label", build: |n, _m| map1(n, Item::Null), recode: recode!(Header), accepts: |i| m_header(i, &mut MCtx::default()).is_ok(), unsigned: false, uninterpreted: false },
+            Pos { name: "key-label", build: |n, _m| Item::Map(vec![(Item::Int(1), Item::Int(1)), (n, Item::Null)]), recode: recode!(CoseKey), accepts: |i| m_key(i).is_ok(), unsigned: false, uninterpreted: false },
+            Pos { name: "claim-key", build: |n, _m| map1(n, Item::Int(0)), recode: recode!(ClaimsSet), accepts: |i| m_claims(i).is_ok(), unsigned: false, uninterpreted: false },
+            Pos { name: "header-alg", build: |n, _m| map1(Item::Int(1), n), recode: recode!(Header), accepts: |i| m_header(i, &mut MCtx::default()).is_ok(), unsigned: false, uninterpreted: false },
+            Pos { name: "key-alg", build: |n, _m| Item::Map(vec![(Item::Int(1), Item::Int(1)), (Item::Int(3), n)]), recode: recode!(CoseKey), accepts: |i| m_key(i).is_ok(), unsigned: false, uninterpreted: false },
+            Pos { name: "kdf-alg", build: |n, _m| Item::Array(vec![n, nil_party(), nil_party(), supp(Item::Int(1))]), recode: recode!(CoseKdfContext), accepts: |i| m_kdf(i, &mut MCtx::default()).is_ok(), unsigned: false, uninterpreted: false },
+            Pos { name: "kty", build: |n, _m| map1(Item::Int(1), n), recode: recode!(CoseKey), accepts: |i| m_key(i).is_ok(), unsigned: false, uninterpreted: false },
+            Pos { name: "content-type", build: |n, _m| map1(Item::Int(3), n), recode: recode!(Header), accepts: |i| m_header(i, &mut MCtx::default()).is_ok(), unsigned: false, uninterpreted: false },
+            Pos { name: "crit-entry", build: |n, _m| map1(Item::Int(2), Item::Array(vec![Item::Int(1), n])), recode: recode!(Header), accepts: |i| m_header(i, &mut MCtx::default()).is_ok(), unsigned: false, uninterpreted: false },
+            Pos { name: "key-ops-entry", build: |n, _m| Item::Map(vec![(Item::Int(1), Item::Int(1)), (Item::Int(4), Item::Array(vec![n]))]), recode: recode!(CoseKey), accepts: |i| m_key(i).is_ok(), unsigned: false, uninterpreted: false },
+            Pos { name: "nonce", build: |n, _m| party(n), recode: recode!(PartyInfo), accepts: |i| m_party(i).is_ok(), unsigned: false, uninterpreted: false },
+            Pos { name: "kdf-party-v-nonce", build: |n, _m| Item::Array(vec![Item::Int(1), nil_party(), party(n), supp(Item::Int(1))]), recode: recode!(CoseKdfContext), accepts: |i| m_kdf(i, &mut MCtx::default()).is_ok(), unsigned: false, uninterpreted: false },
+            Pos { name: "exp", build: |n, _m| map1(Item::Int(4), n), recode: recode!(ClaimsSet), accepts: |i| m_claims(i).is_ok(), unsigned: false, uninterpreted: false },
+            Pos { name: "nbf", build: |n, _m| map1(Item::Int(5), n), recode: recode!(ClaimsSet), accepts: |i| m_claims(i).is_ok(), unsigned: false, uninterpreted: false },
+            Pos { name: "iat", build: |n, _m| map1(Item::Int(6), n), recode: recode!(ClaimsSet), accepts: |i| m_claims(i).is_ok(), unsigned: false, uninterpreted: false },
+            Pos { name: "key-data-length", build: |n, _m| supp(n), recode: recode!(SuppPubInfo), accepts: |i| m_supp(i, &mut MCtx::default()).is_ok(), unsigned: true, uninterpreted: false },
+            Pos { name: "kdf-key-data-length", build: |n, _m| Item::Array(vec![Item::Int(1), nil_party(), nil_party(), supp(n)]), recode: recode!(CoseKdfContext), accepts: |i| m_kdf(i, &mut MCtx::default()).is_ok(), unsigned: true, uninterpreted: false },
+            Pos { name: "RegisteredLabel<Algorithm>", build: |n, _m| n, recode: recode!(RegisteredLabel<iana::Algorithm>), accepts: |i| m_reg_label(crate::registry::ALGORITHM, i).is_ok(), unsigned: false, uninterpreted: false },
+            Pos { name: "RegisteredLabel<CoapContentFormat>", build: |n, _m| n, recode: recode!(RegisteredLabel<iana::CoapContentFormat>), accepts: |i| m_reg_label(crate::registry::COAP_CONTENT_FORMAT, i).is_ok(), unsigned: false, uninterpreted: false },
+            Pos { name: "RegisteredLabelWithPrivate<Algorithm>", build: |n, _m| n, recode: recode!(RegisteredLabelWithPrivate<iana::Algorithm>), accepts: |i| m_reg_label_private(crate::registry::ALGORITHM, i).is_ok(), unsigned: false, uninterpreted: false },
+            Pos { name: "RegisteredLabelWithPrivate<CwtClaimName>", build: |n, _m| n, recode: recode!(RegisteredLabelWithPrivate<iana::CwtClaimName>), accepts: |i| m_reg_label_private(crate::registry::CWT_CLAIM_NAME, i).is_ok(), unsigned: false, uninterpreted: false },
+            Pos { name: "RegisteredLabelWithPrivate<HeaderParameter>", build: |n, _m| n, recode: recode!(RegisteredLabelWithPrivate<iana::HeaderParameter>), accepts: |i| m_reg_label_private(crate::registry::HEADER_PARAMETER, i).is_ok(), unsigned: false, uninterpreted: false },
+            Pos { name: "RegisteredLabelWithPrivate<EllipticCurve>", build: |n, _m| n, recode: recode!(RegisteredLabelWithPrivate<iana::EllipticCurve>), accepts: |i| m_reg_label_private(crate::registry::ELLIPTIC_CURVE, i).is_ok(), unsigned: false, uninterpreted: false },
+            // two adjacent integers as labels of one map (n and its neighbour): both must be decoded exactly
+            Pos { name: "header-label-pair", build: |n, m| { Item::Map(vec![(n, Item::Null), (m, Item::Null)]) }, recode: recode!(Header), accepts: |i| m_header(i, &mut MCtx::default()).is_ok(), unsigned: false, uninterpreted: false },
+            Pos { name: "key-label-pair", build: |n, m| { Item::Map(vec![(Item::Int(1), Item::Int(1)), (n, Item::Null), (m, Item::Null)]) }, recode: recode!(CoseKey), accepts: |i| m_key(i).is_ok(), unsigned: false, uninterpreted: false },
+            Pos { name: "claim-key-pair", build: |n, m| { Item::Map(vec![(n, Item::Int(0)), (m, Item::Int(0))]) }, recode: recode!(ClaimsSet), accepts: |i| m_claims(i).is_ok(), unsigned: false, uninterpreted: false },
+            Pos { name: "key-ops-pair", build: |n, m| { Item::Map(vec![(Item::Int(1), Item::Int(1)), (Item::Int(4), Item::Array(vec![n, m]))]) }, recode: recode!(CoseKey), accepts: |i| m_key(i).is_ok(), unsigned: false, uninterpreted: false },
+            Pos { name: "header-extra-value", build: |n, _m| map1(Item::Int(100), n), recode: recode!(Header), accepts: |_| true, unsigned: false, uninterpreted: true },
+            Pos { name: "key-extra-value", build: |n, _m| Item::Map(vec![(Item::Int(1), Item::Int(1)), (Item::Int(-1), n)]), recode: recode!(CoseKey), accepts: |_| true, unsigned: false, uninterpreted: true },
+            Pos { name: "claim-extra-value", build: |n, _m| map1(Item::Int(8), Item::Array(vec![n])), recode: recode!(ClaimsSet), accepts: |_| true, unsigned: false, uninterpreted: true },
         ]
     })
 }
@@ -135,12 +150,13 @@ fn build_bytes(p: &Pos, n: i128, w: u8) -> Option<(Vec<u8>, Item)> {
     let enc_n = int_bytes(n, w)?;
     const PLACEHOLDER: i128 = 0x5a5a_a5a5_1234_5678;
     let ph = encode(&Item::Int(PLACEHOLDER));
-    let carrier = encode(&(p.build)(Item::Int(PLACEHOLDER)));
+    let m = neighbour(&Item::Int(n));
+    let carrier = encode(&(p.build)(Item::Int(PLACEHOLDER), m.clone()));
     let at = carrier.windows(ph.len()).position(|w| w == &ph[..])?;
     let mut bytes = carrier[..at].to_vec();
     bytes.extend_from_slice(&enc_n);
     bytes.extend_from_slice(&carrier[at + ph.len()..]);
-    Some((bytes, (p.build)(Item::Int(n))))
+    Some((bytes, (p.build)(Item::Int(n), m)))
 }
 
 fn check(p: &Pos, n: i128, w: u8, ctx: &mut Ctx) -> CaseResult {
